@@ -674,7 +674,13 @@ class C09(Prop):
           'remove, slice assignment and del slice with any start / stop / step, *=) on trees of depth <= 3 mixing pg.Dict / pg.List with or without '
           'onchange_callback and pg.Object classes with and without an overridden _on_change; 15 % of the '
           'calls inside notify_on_change(False); every derived fact of every node is read after every call. '
-          'A second, oracle-only stream inserts partial objects, pure-symbolic and non-deterministic values. '
+          'A chosen-reads stream (700 histories): derived facts are read only at chosen nodes at chosen moments '
+          '(read steps; model: readAt), interleaved with notified and silent writes (notify_on_change(False), '
+          'rebind(skip_notification=True), Dict.update) two or more levels below, every history ending with a read of '
+          'everything; the same on typed trees (500 histories, oracle-only) whose objects have schema-bound nested '
+          'Dict / object fields with defaults, so that sym_nondefault() is a snapshot memoised at the object only. '
+          'Object classes form the hierarchy Plain -> Mid -> Sub (only Sub overrides _on_change) and are created '
+          'afresh for every case. A second, oracle-only stream inserts partial objects, pure-symbolic and non-deterministic values. '
           'Non-trivial: some node on the path from the root to a written location subscribes; distinct by JSON.')
   trusted_base = [
       'harness handlers (_on_change override, onchange_callback) and the canonicalisation of FieldUpdate payloads',
